@@ -11,6 +11,9 @@ Tie to the source
        a single MPO or a sum of MPOs, each carrying its own scalar prefactor (f_j * MPO_j; the dense reference applies the
        prefactors itself); penalised states are listed bare or as (penalty, state); with penalties the per-sweep and
        convergence clauses are evaluated for the documented penalised operator H' = H + sum_i p_i |phi_i><phi_i|.
+       Explored call patterns: random / product initial states of bond dimension 1..maximal in any gauge (none, 'first', 'last'),
+       runs ended by max_sweeps or by energy_tol / Schmidt_tol (documented stop rule checked on every reported output), iterator
+       on / off, and warm restarts of dmrg_ on the re-gauged output of an earlier run (energy must not rise above the input's).
 This module also hosts the run-time monitor and the random Hermitian-MPO generators shared with C10.
 """
 import json
@@ -551,15 +554,18 @@ def known_defect_listed(key=KNOWN_DEFECT_KEY):
 
 def gen_case(rng, quick, kind):
     """kind: 'trace' (any N, few sweeps, all option combinations) | 'converge' (small N, maximal D, many sweeps)
-    | 'project' (excited state via penalties)"""
+    | 'project' (excited state via penalties) | 'lowD' (as 'converge' but started from bond dimension 1..3 or from a product
+    state: the run has to GROW the bonds) | 'tol' (run ended by energy_tol / Schmidt_tol instead of max_sweeps)"""
+    if kind in ("lowD", "tol"):
+        return gen_case_extra(rng, quick, kind)
     family, sym = rng.choice(FAMILIES)
     if kind == "trace":
         N = rng.choice([2, 3, 4, 5] if quick else [2, 3, 4, 5, 6, 7, 8])
         nsw = rng.choice([1, 2, 2, 3])
         methods = [rng.choice(["1site", "2site"]) for _ in range(nsw)]
-        D = rng.choice([2, 3, 4, 8])
+        D = rng.choice([1, 2, 3, 4, 8])
         nproj = rng.choice([0, 0, 0, 1, 2])
-        Dsvd = rng.choice([D, 2 * D, 64])
+        Dsvd = rng.choice([max(2, D), 2 * D, 64])
     else:
         N = rng.choice([3, 4, 5] if quick else [3, 4, 5, 6])
         nsw = 24
@@ -576,7 +582,8 @@ def gen_case(rng, quick, kind):
         "nsplit": rng.choice([1, 1, 2, 3]) if kind == "trace" else rng.choice([1, 2, 2, 3]),
         "n": rng.choice(admissible_charges(family, sym, N)),
         "D_total": D, "dtype": "complex128" if cplx or rng.random() < 0.2 else "float64",
-        "psi_seed": rng.randrange(1 << 30), "canon": rng.random() < 0.5,
+        # gauge of the initial state: False = as generated (not canonical), True = canonize_(to='first'), 'last' = canonize_(to='last')
+        "psi_seed": rng.randrange(1 << 30), "canon": rng.choice([False, True, "last"]) if kind == "trace" else rng.random() < 0.5,
         "methods": methods,
         "opts_svd": {"D_total": max(2, Dsvd), "tol": rng.choice([1e-14, 1e-12])},
         "opts_eigs": {"hermitian": True, "ncv": rng.choice([3, 4, 6]), "which": "SR"},
@@ -590,6 +597,122 @@ def gen_case(rng, quick, kind):
     return case
 
 
+def gen_tol(rng, lo, hi):
+    """convergence tolerance 10^-lo .. 10^-hi, one significant digit (exact in JSON)"""
+    return float(f"{10 ** -rng.uniform(lo, hi):.0e}")
+
+
+def gen_case_extra(rng, quick, kind):
+    """'lowD': small N, the initial state has bond dimension 1..3 (random_mps) or is a product state (product_mps of local basis
+    vectors), opts_svd never binds, 24 sweeps: 3 x '2site' and then all-'2site' / all-'1site' / a mixture.
+    'tol': the run is ended by the convergence tolerances: energy_tol and / or Schmidt_tol drawn independently (log-uniform,
+    so that one criterion is typically met several sweeps before the other), max_sweeps = 30, any initial bond dimension,
+    iterator on or off."""
+    case = gen_case(rng, quick, "converge")
+    N = case["N"]
+    case["kind"] = kind
+    dmax = case["D_total"]
+    if kind == "lowD":
+        case["D_total"] = rng.choice([1, 1, 2, 3])
+        tail = rng.choice(["2site", "2site", "1site", "mix"])
+        case["methods"] = ["2site"] * 3 + [rng.choice(["1site", "2site"]) if tail == "mix" else tail for _ in range(21)]
+        case["nproj"] = rng.choice([0, 0, 0, 1])
+    else:
+        case["D_total"] = rng.choice([1, 2, dmax, dmax])
+        m = rng.choice(["1site", "2site", "2site", "switch"])
+        nsw = 30
+        case["methods"] = [m] * nsw if m != "switch" else ["2site"] * rng.choice([1, 2, 3]) + ["1site"] * nsw
+        case["methods"] = case["methods"][:nsw]
+        both = rng.random() < 0.6
+        which = rng.choice(["energy", "Schmidt"])
+        case["energy_tol"] = gen_tol(rng, 1, 12) if both or which == "energy" else None
+        case["Schmidt_tol"] = gen_tol(rng, 1, 10) if both or which == "Schmidt" else None
+        case["iterator"] = m == "switch" or rng.random() < 0.7
+        case["nproj"] = rng.choice([0, 0, 0, 1])
+    case["proj_seeds"] = case["proj_seeds"][:case["nproj"]] or [rng.randrange(1 << 30) for _ in range(case["nproj"])]
+    case["penalties"] = [gen_penalty(rng) for _ in range(case["nproj"])]
+    case["canon"] = rng.choice([False, True, "last"])
+    if case["D_total"] == 1 and rng.random() < 0.5:
+        occ = gen_product_pattern(rng, case["family"], case["sym"], N, case["n"])
+        if occ is not None:
+            case["init"], case["occ"] = "product", occ
+    return case
+
+
+def local_vectors(ops, family, sym):
+    """[(vector, charge)] documented single-site basis vectors usable in product_mps"""
+    if family == "Spin12":
+        vs = [ops.vec_z(val=1), ops.vec_z(val=-1)]
+        if sym == "dense":
+            vs += [ops.vec_x(val=1), ops.vec_x(val=-1)]
+    else:
+        vs = [ops.vec_n(val=0), ops.vec_n(val=1)]
+    return [(v, (int(v.n[0]) if sym != "dense" else None)) for v in vs]
+
+
+def gen_product_pattern(rng, family, sym, N, n):
+    """indices into local_vectors, total charge n (rejection sampling; None if no pattern was found)"""
+    ch = [c for _, c in local_vectors(make_ops(family, sym), family, sym)]
+    for _ in range(400):
+        occ = [rng.randrange(len(ch)) for _ in range(N)]
+        if sym == "dense":
+            return occ
+        tot = sum(ch[o] for o in occ)
+        if (sym == "Z2" and (tot - n) % 2 == 0) or (sym != "Z2" and tot == n):
+            return occ
+    return None
+
+
+WARM_GAUGES = ["asis", "first", "last", "last", "mixed", "add"]
+
+
+def regauge(psi, gauge, site=0):
+    """the same (normalised) state stored in another canonical form.  'asis': untouched output of the previous run;
+    'first' / 'last': canonize_; 'mixed': left-canonical below `site`, right-canonical above; 'add': 0.5 psi + 0.5 psi
+    (not canonical, doubled bond dimension)"""
+    import yastn.tn.mps as mps
+    if gauge == "first":
+        psi.canonize_(to="first")
+    elif gauge == "last":
+        psi.canonize_(to="last")
+    elif gauge == "mixed":
+        psi.canonize_(to="last")
+        for n in range(psi.N - 1, max(0, min(site, psi.N - 1)), -1):
+            psi.orthogonalize_site_(n, to="first")
+            psi.absorb_central_(to="first")
+    elif gauge == "add":
+        psi = mps.add(psi, psi, amplitudes=(0.5, 0.5))
+    return psi
+
+
+def initial_state(case, ops, I):
+    """initial MPS of a case: random_mps / product_mps in the requested gauge, or (warm start) the output of a previous dmrg_ run
+    on the same Hamiltonian, re-gauged"""
+    import yastn.tn.mps as mps
+    ws = case.get("warm_start")
+    if ws:
+        psi = case.get("warm_state")
+        if psi is None:   # replay: recompute the base run
+            psi = run_dmrg(ws["base"], monitor=False)["psi"]
+        psi = psi.copy()
+        nrm = psi.norm()
+        gauge = ws["gauge"]
+        if gauge == "asis" and not (abs(nrm - 1) <= 1e-12 and abs(psi.factor - 1) <= 1e-12):
+            # the previous '2site' run ended un-normalised (known finding, reported for that run): start from the normalised state
+            gauge = "first"
+        return regauge(psi, gauge, ws.get("site", 0))
+    if case.get("init") == "product":
+        vs = local_vectors(ops, case["family"], case["sym"])
+        psi = mps.product_mps([vs[o][0] for o in case["occ"]])
+    else:
+        psi = random_state(ops, I, case["psi_seed"], case["n"], case["D_total"], case["dtype"])
+    if case["canon"] == "last":
+        psi.canonize_(to="last")
+    elif case["canon"]:
+        psi.canonize_(to="first")
+    return psi
+
+
 def run_dmrg(case, monitor=True, precompute=None, nsplit=None):
     """execute the real dmrg_ for a case; returns a dict with the per-sweep outputs, the final state, the monitor"""
     import yastn
@@ -600,9 +723,7 @@ def run_dmrg(case, monitor=True, precompute=None, nsplit=None):
     precompute = case["precompute"] if precompute is None else precompute
     I, Hs, parts = build_hamiltonian(ops, N, case["terms"], nsplit, case.get("hfactors"))
     H = Hs[0] if len(Hs) == 1 else Hs
-    psi = random_state(ops, I, case["psi_seed"], case["n"], case["D_total"], case["dtype"])
-    if case["canon"]:
-        psi.canonize_(to="first")
+    psi = initial_state(case, ops, I)
     if case.get("psi_factor") is not None:   # only used by initial_factor_probe
         psi = case["psi_factor"] * psi
     project = []
@@ -620,8 +741,9 @@ def run_dmrg(case, monitor=True, precompute=None, nsplit=None):
     methods = case["methods"]
     method = yastn.Method(methods[0])
     opts_eigs = None if case.get("use_default_eigs") else dict(case["opts_eigs"])
-    kw = dict(project=project_arg or None, method=method, max_sweeps=len(methods), iterator=True, opts_eigs=opts_eigs,
-              opts_svd=dict(case["opts_svd"]), precompute=precompute)
+    use_iterator = case.get("iterator", True)   # False: plain call, only the final output is returned (no method switches)
+    kw = dict(project=project_arg or None, method=method if use_iterator else methods[0], max_sweeps=len(methods),
+              iterator=use_iterator, opts_eigs=opts_eigs, opts_svd=dict(case["opts_svd"]), precompute=precompute)
     if case.get("Schmidt_tol") is not None:
         kw["Schmidt_tol"] = case["Schmidt_tol"]
     if case.get("energy_tol") is not None:
@@ -636,7 +758,8 @@ def run_dmrg(case, monitor=True, precompute=None, nsplit=None):
         if mon:
             mon.__enter__()
         try:
-            for out in mps.dmrg_(psi, H, **kw):
+            gen = mps.dmrg_(psi, H, **kw)
+            for out in (gen if use_iterator else [gen]):
                 outs.append(out)
                 ill_marks.append(watch.ill)
                 if case.get("keep_vecs", True) and N <= 8:
@@ -658,7 +781,42 @@ def run_dmrg(case, monitor=True, precompute=None, nsplit=None):
 
 
 def _case_json(case):
-    return {k: v for k, v in case.items() if k not in ("project_states",)}
+    return {k: v for k, v in case.items() if k not in ("project_states", "warm_state")}
+
+
+def maximal_bond_dims(ops, N, sym, sector):
+    """for every cut k = 1..N-1 the sorted bond dimensions (one entry per charge sector of the bond) at which an MPS spans the
+    whole charge sector `sector` of the chain: min(#left basis states of charge q, #right basis states of charge sector - q)"""
+    sp = ops.space()
+    loc = [0] * sum(sp.D) if sym == "dense" else [t[0] for t, D in zip(sp.t, sp.D) for _ in range(D)]
+    red = (lambda q: q % 2) if sym == "Z2" else (lambda q: q)
+
+    def counts(m):
+        c = {0: 1}
+        for _ in range(m):
+            c2 = {}
+            for q, k in c.items():
+                for x in loc:
+                    c2[red(q + x)] = c2.get(red(q + x), 0) + k
+            c = c2
+        return c
+    out = []
+    for k in range(1, N):
+        L, R = counts(k), counts(N - k)
+        out.append(sorted(min(nl, R.get(red((sector or 0) - q), 0)) for q, nl in L.items() if R.get(red((sector or 0) - q), 0) > 0))
+    return out
+
+
+def has_maximal_bonds(psi, ops, N, sym, sector):
+    try:
+        mx = maximal_bond_dims(ops, N, sym, sector)
+        return all(sorted(int(d) for d in psi[k].get_legs(axes=0).D) == mx[k - 1] for k in range(1, N))
+    except Exception:
+        return False
+
+
+def nearest_neighbour(terms):
+    return all(max(t[2]) - min(t[2]) <= 1 for t in terms)
 
 
 def check_traces(ctx, case, res, pid="c09"):
@@ -730,12 +888,14 @@ def oracles(ctx, case, res):
     tot = basis_charges(ops, N, case["sym"])
     v0 = res["v0"]
     mask = np.ones(len(v0), dtype=bool)
+    sector = None
     if tot is not None:
         sect = set(tot[np.abs(v0) > 0].tolist())
         if len(sect) != 1:
             ctx.fail("contract", "c09:initial-sector", f"initial state is not in one charge sector: {sect}", case=cj)
             return
-        mask = tot == sect.pop()
+        sector = int(sect.pop())
+        mask = tot == sector
     lam = np.linalg.eigvalsh(Hd[np.ix_(mask, mask)])
     scale = max(1.0, np.abs(lam).max())
     v = dense_mps(psi, ops)
@@ -795,6 +955,39 @@ def oracles(ctx, case, res):
         # the penalty environments add their overlaps to `measure`: |E_rep - <H>| <= sum |<phi_i|psi>|
         if abs(outs[-1].energy - Ed) > sum(ov) + 1e-9 * scale:
             fail("c09:energy-consistency", f"reported energy {outs[-1].energy!r} vs dense <psi|H|psi> {Ed!r}, overlaps {ov}")
+    # -- declared convergence (docstring of dmrg_: the run sweeps "at most max_sweeps times or until ALL convergence measures
+    #    (with provided tolerance other than None) change by less than the provided tolerance during a single sweep"): evaluated
+    #    exactly on the reported measures of every yielded output; `denergy` itself is tied to the reported energies
+    et, st, maxsw = case.get("energy_tol"), case.get("Schmidt_tol"), len(case["methods"])
+
+    def met(o):
+        c = ([] if et is None else [o.denergy is not None and o.denergy < et]) + \
+            ([] if st is None else [o.max_dSchmidt is not None and o.max_dSchmidt < st])
+        return bool(c) and all(c)
+    if case.get("iterator", True) and [o.sweeps for o in outs] != list(range(1, len(outs) + 1)):
+        fail("c09:stop-rule", f"iterator does not yield after every sweep: sweeps {[o.sweeps for o in outs]}")
+    for o in outs[:-1]:
+        if met(o):
+            fail("c09:stop-rule", f"sweep {o.sweeps}: denergy={o.denergy!r} max_dSchmidt={o.max_dSchmidt!r} meet all given tolerances "
+                                  f"(energy_tol={et}, Schmidt_tol={st}) but the run went on")
+            break
+    if outs[-1].sweeps > maxsw or (outs[-1].sweeps < maxsw and not met(outs[-1])):
+        o = outs[-1]
+        fail("c09:stop-rule", f"run ended after {o.sweeps} of max_sweeps={maxsw} sweeps with denergy={o.denergy!r} max_dSchmidt={o.max_dSchmidt!r}: "
+                              f"not all given tolerances (energy_tol={et}, Schmidt_tol={st}) are met")
+    if et is not None or st is not None:
+        ctx.count("stop_rule:" + ("max_sweeps" if outs[-1].sweeps >= maxsw else "declared_converged")
+                  + ("" if case["kind"] == "tol" else ":" + case["kind"]))
+    for k, o in enumerate(outs):
+        if case.get("iterator", True) and k > 0:
+            ref, tol_ = abs(outs[k - 1].energy - o.energy), 1e-12 * scale
+        elif o.sweeps == 1 and nproj == 0:   # dmrg_ normalises a non-canonical initial state; canonical ones are generated normalised
+            ref, tol_ = abs(_ray(Hd, v0) - o.energy), 1e-9 * scale
+        else:
+            continue
+        if o.denergy is None or abs(o.denergy - ref) > tol_:
+            fail("c09:denergy", f"sweep {o.sweeps}: reported denergy {o.denergy!r} != |change of the energy in this sweep| {ref!r}")
+            break
     # -- per sweep: variational bound, monotonicity (truncation never binds: the generator keeps D_total large or the
     #    reported discarded weight is zero).  With penalties the minimised operator is H' (Rayleigh quotients of H').
     prev = _ray(Hp, v0)
@@ -833,11 +1026,26 @@ def oracles(ctx, case, res):
     # -- converged at maximal bond dimension => eigenstate (of H' when states are penalised)
     vn = v / nrm if nrm > 0 else v
     En = _ray(Hp, vn)
-    if case["kind"] in ("converge", "project") and len(outs) >= 3:
+    if case["kind"] in ("converge", "project", "lowD", "tol") and len(outs) >= 3:
         conv = abs(outs[-1].energy - outs[-2].energy) < 1e-12 * scale and abs(outs[-2].energy - outs[-3].energy) < 1e-12 * scale
+        # "at maximal bond dimension".  'converge' / 'project' cases start from a random state of maximal bond dimension.  Cases
+        # that have to grow the bonds themselves qualify when (a) the bonds of the returned state have the maximal dimension in
+        # every charge sector (the MPS manifold is the whole sector), or (b) H is nearest-neighbour without penalties and the
+        # last two converged sweeps were '2site' sweeps in which opts_svd did not bind (nothing discarded): every two-site
+        # tensor is then stationary in its full, untruncated two-site space, H|psi> lies in the sum of these spaces, hence the
+        # state is stationary in a space containing H|psi>: it is an eigenstate.
+        atmax = "start"
+        if case["kind"] in ("lowD", "tol"):
+            free2 = (nproj == 0 and nearest_neighbour(case["terms"]) and case["opts_svd"].get("D_total", 0) >= 2 ** (N // 2)
+                     and all(o.method == "2site" and o.max_discarded_weight is not None and o.max_discarded_weight <= 1e-13 for o in outs[-2:]))
+            atmax = "bonds" if has_maximal_bonds(psi, ops, N, case["sym"], sector) else "2site-untruncated" if free2 else None
         if not conv:
             ctx.count("eigenstate_skipped_not_converged")
+        elif atmax is None:
+            ctx.count("eigenstate_skipped_not_maximal_D")
         elif nproj == 0:
+            if atmax != "start":
+                ctx.count("eigenstate_checked_grown:" + atmax)
             ctx.count("eigenstate_checked")
             resid = np.linalg.norm(Hd @ vn - En * vn)
             if resid > 1e-4 * scale:
@@ -914,6 +1122,13 @@ def run_case(ctx, case):
     ctx.count(f"precompute:{case['precompute']}")
     ctx.count(f"nproj:{case['nproj']}")
     ctx.count(f"nsplit:{case['nsplit']}")
+    if not case.get("warm_start"):
+        ctx.count("init:" + ("product_mps" if case.get("init") == "product" else "random_mps") + ":D=" +
+                  ("1" if case["D_total"] == 1 else "2-3" if case["D_total"] < 4 else ">=4") +
+                  ":gauge=" + {False: "none", True: "first", "last": "last"}[case["canon"]])
+    if case["kind"] == "tol":
+        ctx.count("tolerances:" + "+".join(k for k in ("energy_tol", "Schmidt_tol") if case.get(k) is not None)
+                  + ("" if case.get("iterator", True) else ":iterator=False"))
     hf = [abs(f) for f, _ in res["parts"]]
     ctx.count("mpo_factors:" + ("unit" if all(f == 1 for f in hf) else "equal" if len(set(hf)) == 1 else "unequal")
               + (",negative" if any(f < 0 for f, _ in res["parts"]) else "") + (",large" if max(hf) >= 20 else ""))
@@ -925,6 +1140,25 @@ def run_case(ctx, case):
         compare_variants(ctx, case, res)
     ctx.count("slow_cases", int(time.time() - t0 > 10))
     return res, info
+
+
+def restart_case(ctx, rng, base, res):
+    """warm start: dmrg_ is called again (1-2 sweeps, any method / precompute / split of H) on the output of the run `base`,
+    handed in as returned, right-canonical, LEFT-canonical, mixed-canonical or non-canonical (0.5 psi + 0.5 psi).  Every oracle
+    applies; in particular the energy after the first sweep must not exceed the energy of the state handed in."""
+    if res is None or res["err"] or not res["outs"] or base.get("project_states") or base["N"] > 8:
+        return
+    case = {k: v for k, v in base.items() if k not in ("warm_state", "project_states", "variants", "energy_tol", "Schmidt_tol",
+                                                       "iterator", "init", "occ")}
+    case.update({"kind": "restart", "methods": [rng.choice(["1site", "2site"]) for _ in range(rng.choice([1, 1, 2]))],
+                 "warm_start": {"gauge": rng.choice(WARM_GAUGES), "site": rng.randrange(base["N"]), "base": _case_json(base)},
+                 "precompute": rng.random() < 0.5, "nsplit": rng.choice([1, 1, 2, 3]),
+                 "opts_eigs": {"hermitian": True, "ncv": rng.choice([3, 4, 6]), "which": "SR"},
+                 "Schmidt_tol": None, "use_default_eigs": rng.random() < 0.25})
+    case["warm_state"] = res["psi"]
+    ctx.count("restart_gauge:" + case["warm_start"]["gauge"])
+    ctx.count("restart_base:" + base["kind"])
+    run_case(ctx, case)
 
 
 def project_case(ctx, rng, quick):
@@ -1035,29 +1269,60 @@ def run(ctx):
                 "(penalty, state) with penalties 0.1..1000; 'converge' cases: N=3..6 at maximal bond dimension, 24 sweeps "
                 "(3x'2site' then all-'1site' / all-'2site' / random mixture), 0-2 random penalised states; 'project' cases: the "
                 "converged ground state is penalised (bare, (100, state), penalty below the gap, penalty above the gap) and "
-                "the run must reach the lowest level of H + p|psi0><psi0|. Every case is run on the real dmrg_ under the "
+                "the run must reach the lowest level of H + p|psi0><psi0|; 'lowD' cases: as 'converge' but started from "
+                "random_mps of bond dimension 1..3 or from product_mps of local basis vectors (the run has to grow the bonds; "
+                "eigenstate clause applied when the returned bonds are maximal in every sector or, for nearest-neighbour H, the "
+                "last converged sweeps were untruncated '2site' sweeps); 'tol' cases: run ended by energy_tol and/or Schmidt_tol "
+                "(independent log-uniform tolerances 1e-1..1e-12, max_sweeps 30, iterator on/off): the documented stop rule (all "
+                "given measures below tolerance, else max_sweeps) is evaluated on every reported output and denergy is tied to the "
+                "reported energies; 'restart' cases: dmrg_ called again for 1-2 sweeps on the output of an earlier case handed in "
+                "as returned / right- / left- / mixed-canonical / non-canonical (0.5psi+0.5psi): energy must not rise above that of "
+                "the input state; initial states of 'trace' cases are not canonical, canonize_(to='first') or canonize_(to='last'), "
+                "bond dimension 1..8. Every case is run on the real dmrg_ under the "
                 "run-time monitor, its event trace is diffed with the Lean model and stamp-checked, and the dense oracles "
                 "(with penalties: for H' = H + sum_i p_i|phi_i><phi_i|) are evaluated. Non-trivial = every case (distinct by "
                 "full input).")
     ctx.assumptions += ["local eigensolver (yastn.eigs, Lanczos without restart) and LAPACK QR/SVD are validated numerically, not proved",
                         "dense references: numpy.linalg.eigvalsh / matrix-vector products on to_tensor() embeddings"]
-    budget = 55 if quick else 600
+    budget = 75 if quick else 780
     n_trace = 40 if quick else 300
     n_conv = 10 if quick else 60
+    n_low = 8 if quick else 50
+    n_tol = 10 if quick else 60
     n_proj = 5 if quick else 24
     t_start = time.time()
     for i in range(n_trace):
-        if time.time() - t_start > budget * 0.55:
+        if time.time() - t_start > budget * 0.42:
             ctx.count("trace_cases_cut_by_budget")
             break
         case = gen_case(rng, quick, "trace")
         case["variants"] = (i % 2 == 0)
-        run_case(ctx, case)
+        res, _ = run_case(ctx, case)
+        if i % 3 == 1:
+            restart_case(ctx, rng, case, res)
     for i in range(n_conv):
-        if time.time() - t_start > budget * 0.8:
+        if time.time() - t_start > budget * 0.6:
             ctx.count("converge_cases_cut_by_budget")
             break
-        run_case(ctx, gen_case(rng, quick, "converge"))
+        case = gen_case(rng, quick, "converge")
+        res, _ = run_case(ctx, case)
+        restart_case(ctx, rng, case, res)
+    for i in range(n_low):
+        if time.time() - t_start > budget * 0.74:
+            ctx.count("lowD_cases_cut_by_budget")
+            break
+        case = gen_case(rng, quick, "lowD")
+        res, _ = run_case(ctx, case)
+        if i % 2 == 0:
+            restart_case(ctx, rng, case, res)
+    for i in range(n_tol):
+        if time.time() - t_start > budget * 0.88:
+            ctx.count("tol_cases_cut_by_budget")
+            break
+        case = gen_case(rng, quick, "tol")
+        res, _ = run_case(ctx, case)
+        if i % 2 == 0:
+            restart_case(ctx, rng, case, res)
     for i in range(n_proj):
         if time.time() - t_start > budget:
             ctx.count("project_cases_cut_by_budget")
@@ -1084,11 +1349,13 @@ def search(ctx, broken, budget_s):
     except Exception:
         ctx.drv = None
     while time.time() - t0 < budget_s and not any(f.concrete and f.key != KNOWN_DEFECT_KEY for f in ctx.findings):
-        case = gen_case(rng, True, rng.choice(["trace", "trace", "converge"]))
+        case = gen_case(rng, True, rng.choice(["trace", "trace", "converge", "lowD", "tol"]))
         if case["kind"] == "trace":
             case["methods"] = case["methods"] + [rng.choice(["1site", "2site"]) for _ in range(2)]
             case["variants"] = True
-        run_case(ctx, case)
+        res, _ = run_case(ctx, case)
+        if rng.random() < 0.5:
+            restart_case(ctx, rng, case, res)
     ctx.drv = drv
     ctx.notes.append(f"search: {time.time() - t0:.0f}s of additional random cases")
 
